@@ -2,9 +2,9 @@ import Cirbo.Proofs.GenTotal
 /-!
 # Totality, second layer: the invariant about pending labels and the contract of a generator
 
-`Inv st P`: the labels `P` were drawn but are not gates yet.  `Post st P lab`: the postcondition every
-generator meets — the circuit only grew, the counter did not go back, the caller's pending labels are still
-pending, and the labels returned (`lab a`) are gates of the circuit.
+`Inv st P`: the labels `P` were drawn but are not gates yet.  `GPost P K lab S`: the postcondition every
+generator meets — the caller's pending labels `P` are still pending, every label of the caller's list `K` of
+known gates is still a gate, the labels returned (`lab a`) are gates, and the result has the shape `S`.
 -/
 namespace Cirbo
 open GateType Circuit
@@ -14,17 +14,6 @@ structure Inv (st : GSt) (P : List Label) : Prop where
   pend : ∀ d ∈ P, d ∉ st.c.labels ∧ ∃ j, j < st.ctr ∧ j < 16 ^ 32 ∧ d = newLabel j
 
 theorem Inv.nil (st : GSt) : Inv st [] := ⟨List.nodup_nil, fun d hd => by cases hd⟩
-
-/-- the circuit only grew and the counter did not go back -/
-def Ext (st st' : GSt) : Prop := (∀ l ∈ st.c.labels, l ∈ st'.c.labels) ∧ st.ctr ≤ st'.ctr
-
-theorem Ext.refl (st : GSt) : Ext st st := ⟨fun _ h => h, Nat.le_refl _⟩
-theorem Ext.trans {a b c : GSt} (h1 : Ext a b) (h2 : Ext b c) : Ext a c :=
-  ⟨fun l h => h2.1 l (h1.1 l h), Nat.le_trans h1.2 h2.2⟩
-
-/-- the contract of a generator that returns the labels `lab a` -/
-def Post {α} (st : GSt) (P : List Label) (lab : α → List Label) (a : α) (st' : GSt) : Prop :=
-  Ext st st' ∧ Inv st' P ∧ ∀ l ∈ lab a, l ∈ st'.c.labels
 
 /-- drawing a label: it is pending afterwards, different from every pending label -/
 theorem Ok.fresh_inv {α} {r : List Label} {k : Label → Prog α} {st : GSt} {P : List Label} {Q : α → GSt → Prop}
@@ -86,35 +75,6 @@ theorem ok_emit {ty : GateType} {ops : List Label} {ok : tyOk ty ops.length = tr
   have : (l :: P).erase l = P := by simp
   rw [this] at hinv2
   exact hinv2
-
-theorem post_of_emit {st st' : GSt} {P : List Label} {l : Label}
-    (h : st'.c.labels = st.c.labels ++ [l] ∧ st.ctr ≤ st'.ctr ∧ Inv st' P) : Post st P (fun (x : Label) => [x]) l st' :=
-  ⟨⟨fun x hx => by rw [h.1]; exact List.mem_append_left _ hx, h.2.1⟩, h.2.2, fun x hx => by
-    rw [h.1]; simp only [List.mem_singleton] at hx; subst hx; simp⟩
-
-theorem ok_emit' {ty : GateType} {ops : List Label} {ok : tyOk ty ops.length = true} {st : GSt} {P : List Label}
-    (hinv : Inv st P) (ho : ∀ o ∈ ops, o ∈ st.c.labels) : Ok (emit ty ops ok) st (Post st P (fun x => [x])) :=
-  (ok_emit hinv ho).mono (fun _ _ h => post_of_emit h)
-
-/-- **`add_gate_from_tt`** for an operation of the regenerated table -/
-theorem ok_emitTT {x y : Label} {op : TT} {st : GSt} {P : List Label} (hinv : Inv st P)
-    (hop : (Gen.ttType op.1 op.2.1 op.2.2.1 op.2.2.2).isSome = true)
-    (hx : x ∈ st.c.labels) (hy : y ∈ st.c.labels) : Ok (emitTT x y op) st (Post st P (fun l => [l])) := by
-  unfold emitTT
-  split
-  · rename_i h; rw [h] at hop; cases hop
-  · exact ok_emit' hinv (by intro o ho; simp only [List.mem_cons, List.not_mem_nil, or_false] at ho; rcases ho with rfl | rfl <;> assumption)
-
-/-! ### using a contract: the usual step of a `do` block -/
-
-/-- `let a ← p; rest a`, where `p` meets its contract: continue from any state that extends the current one -/
-theorem Ok.step {α β} {p : Prog α} {f : α → Prog β} {st : GSt} {P : List Label} {lab : α → List Label}
-    {R : β → GSt → Prop} (hp : Ok p st (Post st P lab))
-    (hf : ∀ a st', Ext st st' → Inv st' P → (∀ l ∈ lab a, l ∈ st'.c.labels) → Ok (f a) st' R) : Ok (p >>= f) st R :=
-  Ok.bind hp (fun a st' h => hf a st' h.1 h.2.1 h.2.2)
-
-theorem Post.weaken {α} {st0 st st' : GSt} {P : List Label} {lab : α → List Label} {a : α}
-    (h0 : Ext st0 st) (h : Post st P lab a st') : Post st0 P lab a st' := ⟨h0.trans h.1, h.2.1, h.2.2⟩
 
 /-! ### contracts over a list of known labels -/
 
